@@ -739,9 +739,8 @@ impl<'a, 'src> Resolver<'a, 'src> {
   }
 
   fn catch(&mut self, catch: &mut ast::Catch<'src>) {
-    self.declare_variable(&catch.name);
-    self.define_variable(&catch.name);
-
+    // the class is loaded before the catch variable exists, a class that shares its name
+    // is not the variable
     if let Some(class) = &catch.class {
       self.resolve_variable(class)
     } else {
@@ -752,6 +751,9 @@ impl<'a, 'src> Resolver<'a, 'src> {
         catch.name.end(),
       ));
     }
+
+    self.declare_variable(&catch.name);
+    self.define_variable(&catch.name);
 
     catch.block.symbols = self.scope(|self_| self_.block(&mut catch.block));
   }
